@@ -19,11 +19,21 @@ ValsQ8 == ValsQ(Fields8)     ValsQ16 == ValsQ(Fields16)
 ValsT8 == ValsT(Fields8)     ValsT16 == ValsT(Fields16)
 
 \* (the grids contain every value of Base1, so the explored set is exactly the valid part of the product)
+\* cb / db: constraint / DEEP batching method (0 linear, 1 algebraic, 2 Horner) — not among the listed
+\* parameters (never stepped), but part of the options every context is built with
 Base1 == [mw |-> 1, aw |-> 0, ar |-> 0, le |-> 3, meta |-> <<>>, mod |-> "f64", nc |-> 1,
-          ext |-> 1, blow |-> 2, fold |-> 2, rem |-> 0, grind |-> 0, q |-> 1]
+          ext |-> 1, blow |-> 2, fold |-> 2, rem |-> 0, grind |-> 0, q |-> 1, cb |-> 0, db |-> 0]
 Base2 == [mw |-> 20, aw |-> 9, ar |-> 12, le |-> 12, meta |-> <<>>, mod |-> "f62", nc |-> 128,
-          ext |-> 2, blow |-> 8, fold |-> 8, rem |-> 127, grind |-> 20, q |-> 30]
+          ext |-> 2, blow |-> 8, fold |-> 8, rem |-> 127, grind |-> 20, q |-> 30, cb |-> 0, db |-> 0]
 BasesG == {Base1}
 BasesM == {Base1, Base2}
+\* the option parameters under every non-default pair of batching methods (the other parameters fixed)
+BasesB == {[Base1 EXCEPT !.cb = x[1], !.db = x[2]] : x \in ({0, 1, 2} \X {0, 1, 2}) \ {<<0, 0>>}}
+ValsOpt(fields) == [p \in Params |->
+  CASE p = "mw" -> {1} [] p = "aw" -> {0} [] p = "ar" -> {0} [] p = "le" -> {3}
+    [] p = "meta" -> {<<>>} [] p = "mod" -> fields [] p = "nc" -> {1}
+    [] p = "ext" -> {1, 2, 3} [] p = "blow" -> {2, 128} [] p = "fold" -> {2, 16} [] p = "rem" -> {0, 255}
+    [] p = "grind" -> {0, 1, 31, 32} [] p = "q" -> {1, 255}]
+ValsOpt8 == ValsOpt(Fields8)     ValsOpt16 == ValsOpt(Fields16)
 AllKinds == {"zero", "one", "first", "alt", "edge"}
 =============================================================================
